@@ -3,6 +3,11 @@
 Tie: the REAL copy_graph / rename_nodes / deduplicate_nodes / split_graph / expand_graph / fuse_nodes on
 random DAGs against Model/Graph.lean, one transformation per case, results compared in a structural
 canonical form (ekw.c11_lib.canon).
+Generators (ekw.c11_lib.gen_graph / gen_chainy, gen_expansion here): besides adversarial fixed names, node names are built
+from other nodes' names, output names and input names (`<node>.<output>`, `<node>.0`, several dots, a dotted name's prefix
+declaring the rest as an output), name-collision clusters put equal-payload consumers on outputs that render alike, and
+sub-graphs draw ALL their node names from the expanded node's input/output names and the outer graph's node names, with
+None / explicit / partial / empty maps and independent sources outside the input map.
 Oracle (from the property text only, independent of the model): a symbolic interpreter computes every
 sink's term before and after; dedup: no two nodes with equal (payload, outputs, inputs), idempotent;
 split: every node in exactly one part (the one of its key), re-joining the parts along the reported cut
@@ -56,6 +61,7 @@ ASSUMPTIONS = [
     "the node order given to the model is the order in which Transformer.transform finishes nodes (DFS post-order from the sinks)",
     "split and expand cases use graphs with unique node names (CutEdge and the expander identify nodes by name); cut names (hash based) are treated as injective and compared through the reported cut edges",
     "payloads are compared with == only (same_payload); the harness uses payload values for which == is an equivalence",
+    "an expander answers None, a Graph or a 3-tuple (graph, input map | None, output map | None) as documented; 1-/2-tuples and maps that select a leaf or an input that does not exist are generated and counted but nothing is demanded of them",
 ]
 
 TRANSFORMS = ["copy", "rename", "dedup", "split", "expand", "fuse"]
